@@ -17,6 +17,8 @@ Python methods by differential testing through the driver ops `md_heading` / `md
 (harness/props/c13.py, `heading_tie`).
 -/
 import Mistune.Util
+import Mistune.Py
+import Mistune.MdCode
 namespace Mistune
 
 /-- `MarkdownRenderer.heading`: `"#" * level + " " + text + "\n\n"` -/
@@ -24,5 +26,47 @@ def mdHeading (level : Nat) (text : Str) : Str := List.replicate level '#' ++ ['
 
 /-- `MarkdownRenderer.thematic_break`: `"***\n\n"` -/
 def mdThematicBreak : Str := ['*', '*', '*', '\n', '\n']
+
+/-! ### `MarkdownRenderer.block_quote`
+
+```python
+def block_quote(self, token, state):
+    text = indent(self.render_children(token, state), "> ", lambda _: True)
+    # drop the trailing empty quote lines, never characters of the last content line
+    lines = text.split("\n")
+    while lines and not lines[-1].strip("> "):
+        lines.pop()
+    return "\n".join(lines) + "\n\n"
+```
+
+with `textwrap.indent(text, prefix, predicate) = "".join(prefix + line if predicate(line) else line for line in
+text.splitlines(True))`.  The transcription takes the rendered children (`render_children`) as its argument.  Tied to the
+Python method by differential testing through the driver op `md_block_quote` (harness/props/c13.py, `quote_tie`). -/
+
+/-- `s.splitlines(True)` (`keepends=True`): the lines with their terminators; the line boundaries are those of
+`Py.isLineBreak` (`\n`, `\r`, `\r\n`, `\v`, `\f`, `\x1c`–`\x1e`, `\x85`, `\u2028`, `\u2029`); no empty last line. -/
+def splitLinesKeep : Str → List Str
+  | [] => []
+  | '\r' :: '\n' :: r => ['\r', '\n'] :: splitLinesKeep r
+  | c :: r =>
+    if Py.isLineBreak c then [c] :: splitLinesKeep r
+    else match splitLinesKeep r with
+      | l :: ls => (c :: l) :: ls
+      | [] => [[c]]
+
+/-- `textwrap.indent(text, prefix, lambda _: True)`: every line of `text.splitlines(True)` gets the prefix -/
+def indentAll (pre : Str) (text : Str) : Str := ((splitLinesKeep text).map (pre ++ ·)).flatten
+
+/-- `not line.strip("> ")`: the line consists of `>` and blanks only -/
+def quoteBlankLine (l : Str) : Bool := (Py.stripC ['>', ' '] l).isEmpty
+
+/-- `while lines and not lines[-1].strip("> "): lines.pop()` -/
+def popQuoteBlank (lines : List Str) : List Str := (lines.reverse.dropWhile quoteBlankLine).reverse
+
+/-- `MarkdownRenderer.block_quote` on the rendered children `inner` -/
+def mdBlockQuote (inner : Str) : Str :=
+  let text := indentAll ['>', ' '] inner
+  let lines := popQuoteBlank (lineSplit text)
+  Py.join ['\n'] lines ++ ['\n', '\n']
 
 end Mistune
